@@ -71,6 +71,9 @@ Init ==
        {[op |-> "sample", n |-> n, rows |-> r, bs |-> b] :
             n \in CountTokens(MaxN), r \in 0..MaxRows, b \in CountTokens(MaxBS)}
        \cup {[op |-> "log_prob", r1 |-> a, r2 |-> b] : a \in 1..MaxRows, b \in 0..MaxRows}
+       \* an empty batch (an empty selection, an empty last chunk): one value per input row is no value at all;
+       \* a conditional model is then given a context with no rows
+       \cup {[op |-> "log_prob", r1 |-> 0, r2 |-> 0]}
        \cup {[op |-> "slp", n |-> n, rows |-> r] : n \in CountTokens(MaxN), r \in 0..MaxRows}
   /\ out = CASE call.op = "sample" -> SampleResult(call.n, call.rows, call.bs)
              [] call.op = "log_prob" -> LogProbResult(call.r1, call.r2)
